@@ -24,6 +24,11 @@ CHECKS = {
   text="By-construction oracle: one variable is bound at every subset (size <=3 quick, <=5 thorough) of 9 binding sites, each binding carrying a sentinel naming its site, and read at each of 9 read sites through a module-level show() helper, under strict_undefined on/off and 3 layouts; the expected sentinel (or UNDEFINED, or a NameError naming the variable) is the first hit in the statement's order; the product is enumerated exhaustively on real templates through a TemplateLookup. Context isolation (deep comparison of render arguments, context.kwargs from three scopes and after mutation, includes and inherited bases seeing the context value of a name the body reassigned) and the reserved names (4 names x 5 render entry points, x 8 binding forms at compile time) are checked by directed scenarios.",
   note="Trusted: the resolution order table in checks/c04.py (taken from the statement). Not asserted: module-level vs body-handed-down values inside defs; body loop targets inside defs. One open known finding (identifier named like a filter flag inside a filter-call argument).",
   technique="by-construction sentinel oracle over the exhaustive binding-site x read-site product"),
+ "C05": dict(
+  category="exploration", design_ref="DESIGN.md §2 C05",
+  text="Reference-model monitor: generated documents (defs in a DAG with every parameter kind, buffered/filter/decorator flags, nested defs, calls by name / via self / inside string concatenation / via capture / as arguments, calls with content in both tag styles nested to depth 3-4 with body arguments and nested defs, caller.body() invoked 0-3 times, inside % if / % for) are rendered by Mako and by an independent reference interpreter (mk/tdoc.py: explicit buffer stack, caller objects as closures of the calling scope, argument binding through inspect.signature); output or exception type must agree. A sys.settrace render-state monitor asserts on every frame of the generated module that buffer-stack depth, caller-stack depth and the pending caller at exit equal those at entry.",
+  note="Trusted: the reference interpreter (rules in DESIGN.md appendix A). Not generated: capture() of buffered defs, decorators on buffered defs. One open known finding (bare '*' of a def signature is dropped; pinned by test_def_py3k_args_quirk).",
+  technique="reference-interpreter differential oracle + settrace render-state invariant monitor over grammar-generated templates"),
  "C09": dict(
   category="exploration", design_ref="DESIGN.md §2 C09",
   text="Every URI of the stated segment/separator/leading alphabet (exhaustive up to 4 segments quick, 6 thorough) is looked up on real TemplateLookup objects over a fixture tree with canary files at every place a traversal could land, directly and through include/inherit/namespace/Namespace-API calls from callers at depth 0..3; a sys.addaudithook file-access monitor, the realpath of every returned Template.filename and a canary scan of the output decide containment.",
